@@ -155,7 +155,8 @@ mut('C11-write-lock-removed', 'C11', 'lomond/session.py',
     "    def write(self, data, closing=False):\n"
     '        """Send raw data."""\n        if True:\n')
 mut('C12-flag-set-outside-lock', 'C12', 'lomond/session.py',
-    "            if closing:\n", "            if False:\n")
+    "            if closing and state.session is self:\n",
+    "            if False:\n")
 mut('C11-compress-lock-removed', 'C11', 'lomond/websocket.py',
     "            with self.state.compress_lock:\n", "            if True:\n", 2)
 # ---- C13
